@@ -109,6 +109,10 @@ func runLedger(c *sim.Ctx) {
 }
 
 func (s *ledgerSim) pickNode() *node {
+	if s.prop == "C05" {
+		// only the publisher's pool matters; followers receive its blocks
+		return s.w.nodes[0]
+	}
 	return s.w.nodes[s.c.T.Int("node", len(s.w.nodes))]
 }
 
@@ -130,6 +134,10 @@ func (s *ledgerSim) step() {
 		mix = wt{10, 8, 5, 4, 4, 4, 5, 5, 3, 2, 0, 4}
 	case "C07":
 		mix = wt{10, 3, 1, 5, 4, 3, 1, 1, 2, 3, 10, 2}
+	}
+	if s.prop == "C05" && t.Chance("tie-burst", 1, 12) {
+		s.opTieBurst()
+		return
 	}
 	switch t.Pick("op", mix.inject, mix.mut, mix.re, mix.create, mix.deliver, mix.forge, mix.refresh, mix.rminv, mix.clock, mix.restart, mix.query, mix.gossip) {
 	case 0:
@@ -156,6 +164,24 @@ func (s *ledgerSim) step() {
 		s.opQuery()
 	case 11:
 		s.opGossip()
+	}
+}
+
+// opTieBurst floods the publisher's pool with transactions that tie exactly
+// in fee per kilobyte, so that the hash tie-break decides the block order.
+func (s *ledgerSim) opTieBurst() {
+	pub := s.w.nodes[0]
+	txs := s.w.tieBurst(pub.m, 6+s.c.T.Int("tie-count", 40))
+	for _, tx := range txs {
+		if s.c.Failed() || s.desync {
+			return
+		}
+		s.submitTxn(pub, tx, false, kInject, "tie-burst")
+	}
+	s.c.Count("probe.tie_burst")
+	s.c.CountN("probe.tie_burst_txns", int64(len(txs)))
+	if len(txs) >= 13 {
+		s.c.Count("probe.tie_burst_13_or_more")
 	}
 }
 
@@ -276,6 +302,10 @@ func (s *ledgerSim) opInject(mutated bool) {
 		return
 	}
 	label := "valid-ish"
+	if fat {
+		label = "fat"
+		s.c.Count("probe.fat_txn_built")
+	}
 	kind := byte(kInject)
 	if mutated {
 		k := 1 + t.Int("mutation", mutCount-1)
@@ -410,6 +440,9 @@ func (s *ledgerSim) snapshot(n *node, withFP bool) preState {
 // per-property oracles.  Returns whether the node appended it.
 func (s *ledgerSim) submitBlock(n *node, b model.Block, label string, kind byte) bool {
 	c := s.c
+	if n.publisher {
+		return s.submitBlockArbitrating(n, b, label, kind)
+	}
 	pre := s.snapshot(n, s.prop == "C04")
 	verdict := n.m.CheckBlock(&b)
 	cb := cBlock(&b)
@@ -793,10 +826,7 @@ func (s *ledgerSim) opForge() {
 	if n.publisher && len(s.w.nodes) > 1 && t.Chance("forge-prefers-follower", 3, 4) {
 		n = s.w.nodes[1+t.Int("follower", len(s.w.nodes)-1)]
 	}
-	if n.publisher {
-		// the publisher arbitrates (filters) instead of rejecting; strict-mode rules are checked on followers
-		return
-	}
+	// (a publisher target arbitrates: see submitBlockArbitrating)
 	m := n.m
 	// choose transactions
 	var txns []model.Txn
